@@ -180,6 +180,9 @@ def concrete(n, vals):
 
 def replay(data):
     import bert_e.workflow.gitwaterflow as gwf
+    if data.get('kind') == 'authoropts':
+        from . import authoropts
+        return authoropts.replay(data)
     if data.get('scenario') == 'handle_pr':
         from . import gitflow as GF
         common.install_common_stubs(common.named_render)
@@ -323,3 +326,6 @@ def check(rep):
     if not twin_refuted:
         rep.error('reachability twin not refuted')
     handler_part(rep)
+    from . import authoropts
+    authoropts.check(rep, 'C06', ['bypass_build_status'])
+
